@@ -86,7 +86,7 @@ def run_one(binary, sc, run_id, cell=None, tail=0, workers=None, plan=None, no_p
            "exit": (-9 if r.exit is None else r.exit) if not r.timed_out else -7,
            "sblocks": sst.st_blocks, "smap": smap, "fsblock": 4096,
            "holesDetectable": not any("fiemap=unsupported" in x for x in items),
-           "slackBlocks": 8 + 8 * len(smap)}
+           "slackBlocks": 8 + 8 * len(smap), "growBase": -1}
     if os.path.exists(dstp):
         if fsync_src:
             fd = os.open(dstp, os.O_RDONLY); os.fsync(fd); os.close(fd)
